@@ -47,6 +47,15 @@ R12.8 dtype discipline of the estimators (kde_methods, kde_contours,
       (``np.empty/zeros/ones/full`` with the default or an explicit float
       dtype); ``*_like(<data>)`` without an explicit float dtype inherits the
       dtype of the input (integer features would truncate the values).
+R12.9 observation matrices of the multivariate estimator: the matrix of
+      output positions that ``kde_multivariate`` hands to ``.pdf(...)`` (and
+      the event data handed to the constructor) is built symbolically from
+      its constructor (vstack / column_stack / stack / array / c_ / .T …) for
+      N = 0, 1, k, k+1, 5 positions and pushed through the parsed
+      ``_adjust_shape``: it must reach ``gpke`` with one row per position for
+      every N – in particular for N == k_vars, where ``_adjust_shape`` cannot
+      guess the orientation of a (k, N) matrix – or the constructor must
+      reject the case itself.
 R12.6 downsampled scatter (evaluated symbolically): the returned mask has
       the length of the dataset and marks exactly the events whose data are
       returned, which are selected events.
@@ -1827,6 +1836,234 @@ def r128(ctx, repo):
 
 
 # ----------------------------------------------------------------------
+# R12.9 orientation of observation matrices
+
+KB = EXT + "_kernel_base.py"
+KD = EXT + "kernel_density.py"
+
+
+class Mat2:
+    """2-d array of uninterpreted entries (list of rows)"""
+
+    def __init__(self, rows, ncols=None):
+        self.rows = [list(r) for r in rows]
+        lens = {len(r) for r in self.rows}
+        if len(lens) > 1:
+            raise ModelFault("inhomogeneous shape of a 2-d array")
+        self.ncols = lens.pop() if lens else (ncols or 0)
+
+    ndim = 2
+
+    @property
+    def shape(self):
+        return (len(self.rows), self.ncols)
+
+    def __len__(self):
+        return len(self.rows)
+
+    @property
+    def T(self):
+        return Mat2([[r[j] for r in self.rows] for j in range(self.ncols)],
+                    ncols=len(self.rows))
+
+    def transpose(self, *a):
+        return self.T
+
+    def flat(self):
+        return [x for r in self.rows for x in r]
+
+    def __getitem__(self, k):
+        if isinstance(k, int):
+            return Arr(self.rows[k], "ev")
+        if isinstance(k, tuple) and len(k) == 2 and isinstance(k[0], int) \
+                and isinstance(k[1], slice):
+            return Arr(self.rows[k[0]][k[1]], "ev")
+        raise MiniError(f"index {k!r} on a 2-d model array")
+
+
+def _as_cols(seq):
+    cols = []
+    for a in seq:
+        if isinstance(a, Arr):
+            cols.append(list(a.v))
+        elif isinstance(a, (list, tuple)):
+            cols.append(list(a))
+        else:
+            raise MiniError(f"stacking a {type(a).__name__} in the model")
+    return cols
+
+
+def _vstack(seq):
+    cols = _as_cols(seq)
+    return Mat2(cols, ncols=len(cols[0]) if cols else 0)
+
+
+def _column_stack(seq):
+    cols = _as_cols(seq)
+    n = len(cols[0]) if cols else 0
+    if any(len(c) != n for c in cols):
+        raise ModelFault("all input arrays must have the same length")
+    return Mat2([[c[i] for c in cols] for i in range(n)], ncols=len(cols))
+
+
+def _stack(seq, axis=0):
+    if axis in (0, -2):
+        return _vstack(seq)
+    if axis in (1, -1):
+        return _column_stack(seq)
+    raise MiniError(f"np.stack(axis={axis}) in the model")
+
+
+def _asarray2(a, dtype=None, **k):
+    if isinstance(a, (Mat2, Arr)):
+        return a
+    if isinstance(a, (list, tuple)):
+        if a and all(isinstance(x, (Arr, list, tuple)) for x in a):
+            return _vstack(a)
+        return Arr(a)
+    raise MiniError(f"np.asarray of {type(a).__name__} in the model")
+
+
+def _reshape(a, shape):
+    flat = a.flat() if isinstance(a, Mat2) else list(a)
+    r, c = shape
+    if r * c != len(flat):
+        raise ModelFault(f"cannot reshape array of size {len(flat)} into "
+                         f"shape {tuple(shape)}")
+    return Mat2([flat[i * c:(i + 1) * c] for i in range(r)], ncols=c)
+
+
+class _C:
+    def __getitem__(self, k):
+        return _column_stack(k if isinstance(k, tuple) else (k,))
+
+
+class _R:
+    def __getitem__(self, k):
+        if isinstance(k, tuple) and k and isinstance(k[0], str):
+            raise MiniError("np.r_ with a directive in the model")
+        out = []
+        for a in (k if isinstance(k, tuple) else (k,)):
+            out += list(a)
+        return Arr(out, "ev")
+
+
+def np_matrix_model():
+    return numpy_model(
+        vstack=_vstack, row_stack=_vstack, column_stack=_column_stack,
+        stack=_stack, array=_asarray2, asarray=_asarray2,
+        atleast_2d=lambda a: a if isinstance(a, Mat2) else _vstack([a]),
+        transpose=lambda a, *k: a.T, shape=lambda a: a.shape,
+        ndim=lambda a: a.ndim, squeeze=lambda a: a, reshape=_reshape,
+        c_=_C(), r_=_R(), size=lambda a: len(a.flat()) if isinstance(
+            a, Mat2) else len(a))
+
+
+def r129(ctx, repo):
+    f = repo.func(KDE, "kde_multivariate")
+    adjust = repo.func(KB, "_adjust_shape")
+    init = repo.func(KD, "KDEMultivariate.__init__")
+    # does the constructor reject nobs <= k_vars itself?
+    rejects = any(
+        isinstance(n, ast.If) and isinstance(n.test, ast.Compare)
+        and len(n.test.ops) == 1 and isinstance(
+            n.test.ops[0], (ast.LtE, ast.Lt))
+        and "nobs" in txt(n.test.left) and "k_vars" in txt(
+            n.test.comparators[0])
+        and any(isinstance(s, ast.Raise) for s in n.body)
+        for n in walk(init))
+    strict = any(
+        isinstance(n, ast.If) and isinstance(n.test, ast.Compare)
+        and isinstance(n.test.ops[0], ast.LtE) and "nobs" in txt(
+            n.test.left) for n in walk(init))
+    bad_pos = None
+    bad_dat = None
+    n_eval = 0
+    for n_pos, n_ev in ((0, 5), (1, 5), (2, 5), (3, 5), (5, 5), (2, 2),
+                        (2, 3), (5, 1)):
+        n_eval += 1
+        seen = {}
+
+        class Est:
+            def __init__(self, data=None, var_type=None, bw=None, **k):
+                seen["data"] = data
+                seen["var_type"] = var_type
+
+            def pdf(self, data_predict=None):
+                seen["predict"] = data_predict
+                nn = n_pos
+                return Arr([("dens", i) for i in range(nn)], "num")
+        mini = Mini({"np": np_matrix_model(), "KDEMultivariate": Est})
+        mini.bind_module(repo.tree(KDE))
+        ex = Arr([Ev("ex", i) for i in range(n_ev)], "ev")
+        ey = Arr([Ev("ey", i) for i in range(n_ev)], "ev")
+        px = Arr([Ev("px", i) for i in range(n_pos)], "ev")
+        py = Arr([Ev("py", i) for i in range(n_pos)], "ev")
+        tag = f"{n_pos} output positions, {n_ev} events"
+        try:
+            mini.call(f, (ex, ey, px, py), dict(bw=(1.0, 1.0)))
+        except ModelFault as e:
+            bad_pos = bad_pos or f"{tag}: {e}"
+            continue
+        if "predict" not in seen or seen.get("var_type") is None:
+            raise AnalysisError("kde_multivariate: the call of the "
+                                "estimator's pdf() was not observed")
+        k_vars = len(seen["var_type"])
+        amini = Mini({"np": np_matrix_model()})
+        amini.bind_module(repo.tree(KB))
+
+        def through(m):
+            return amini.call(adjust, (m, k_vars))
+        # positions
+        try:
+            got = through(seen["predict"])
+            rows = [list(r) for r in got.rows] if isinstance(
+                got, Mat2) else None
+        except ModelFault as e:
+            rows = None
+            bad_pos = bad_pos or f"{tag}: _adjust_shape fails: {e}"
+        want = [[Ev("px", i), Ev("py", i)] for i in range(n_pos)]
+        if rows is not None and rows != want:
+            shp = seen["predict"].shape if hasattr(
+                seen["predict"], "shape") else "?"
+            bad_pos = bad_pos or (
+                f"{tag}: `positions` of shape {shp} reaches gpke as rows "
+                f"{rows}, expected one row (x_i, y_i) per position "
+                f"{want} – _adjust_shape cannot tell a (k_vars, N) matrix "
+                f"from an (N, k_vars) one when N == k_vars")
+        # event data
+        try:
+            gd = through(seen["data"])
+            drows = [list(r) for r in gd.rows] if isinstance(
+                gd, Mat2) else None
+        except ModelFault as e:
+            drows = None
+            bad_dat = bad_dat or f"{tag}: _adjust_shape(data) fails: {e}"
+        dwant = [[Ev("ex", i), Ev("ey", i)] for i in range(n_ev)]
+        if drows is not None and drows != dwant:
+            nobs = len(drows)
+            rejected = rejects and (nobs <= k_vars if strict
+                                    else nobs < k_vars)
+            if not rejected:
+                bad_dat = bad_dat or (
+                    f"{tag}: the event data reach the estimator as rows "
+                    f"{drows}, expected one row per event, and the "
+                    f"constructor does not reject this case")
+    ctx.ob("R12.9", bad_pos is None,
+           "kde_multivariate: the output positions reach gpke with one row "
+           "per position for N = 0, 1, k, k+1, 5" if bad_pos is None
+           else f"kde_multivariate / positions: {bad_pos}", node=f,
+           label="positions matrix: one row per position for every N")
+    ctx.ob("R12.9", bad_dat is None,
+           "kde_multivariate: the event data reach the estimator with one "
+           "row per event, or the constructor rejects the ambiguous sizes"
+           if bad_dat is None else
+           f"kde_multivariate / data: {bad_dat}", node=f,
+           label="event matrix: one row per event or rejected")
+    ctx.stat("R12.9 evaluations", n_eval)
+
+
+# ----------------------------------------------------------------------
 # R12.5 purge before statistics
 
 FINITE_TESTS = {"isnan", "isinf", "isfinite"}
@@ -2185,6 +2422,10 @@ def run(ctx):
              "allocated floating", minimum=2)
     r127(ctx, repo)
     r128(ctx, repo)
+    ctx.rule("R12.9", "observation matrices of the multivariate estimator "
+             "reach gpke with one row per position / event for every N "
+             "(incl. N == k_vars)", minimum=2)
+    r129(ctx, repo)
     if ctx.tier == "thorough":
         other = []
         for rel in repo.files("dclab/"):
@@ -2766,5 +3007,38 @@ TWINS = list(TWINS) + [
       '        enabled = ds.config["filtering"]["enable filters"]\n'
       "        if enabled:\n"
       "            x = ds[feat][ds.filter.all]\n")),
+]
+
+
+_POS = ("    positions = np.column_stack([xout.flatten(), "
+        "yout.flatten()])\n")
+
+MUTANTS = list(MUTANTS) + [
+    ("F12c returns: positions stacked as (2, N)", KDE,
+     (_POS, "    positions = np.vstack([xout.flatten(), yout.flatten()])\n"),
+     "R12.9"),
+    ("positions as a plain (2, N) array", KDE,
+     (_POS, "    positions = np.array([xout.flatten(), yout.flatten()])\n"),
+     "R12.9"),
+    ("positions transposed once too often", KDE,
+     (_POS, "    positions = np.column_stack([xout.flatten(), "
+            "yout.flatten()]).T\n"), "R12.9"),
+    ("positions: y column twice", KDE,
+     (_POS, "    positions = np.column_stack([yout.flatten(), "
+            "yout.flatten()])\n"), "R12.9"),
+]
+
+TWINS = list(TWINS) + [
+    ("positions: vstack transposed", KDE,
+     (_POS, "    positions = np.vstack([xout.flatten(), "
+            "yout.flatten()]).T\n")),
+    ("positions: stack along axis 1", KDE,
+     (_POS, "    positions = np.stack([xout.flatten(), yout.flatten()], "
+            "axis=1)\n")),
+    ("positions: array transposed", KDE,
+     (_POS, "    positions = np.array([xout.flatten(), "
+            "yout.flatten()]).T\n")),
+    ("positions: np.c_", KDE,
+     (_POS, "    positions = np.c_[xout.flatten(), yout.flatten()]\n")),
 ]
 
